@@ -3,6 +3,7 @@ CONSTANTS
   MaxOps = 1000000
   UnitKinds = {"set32", "set64", "getp", "getq"}
   MaxPos = 3
+  Sigs = {1, 2}
 CONSTRAINT Record
 POSTCONDITION Post
 CHECK_DEADLOCK FALSE
